@@ -6,11 +6,15 @@ from props import _edgecommon
 
 
 def run(rep, tier, seed):
-    rep.assumptions.append('The trajectory theorem is stated for an abstract iteration whose linearisation is invariant (instantiated by the proved '
-                           'error and pose-slot Jacobian invariance lemmas); for landmark slots the Jacobian picks up the rotation of T and the '
-                           'corresponding statement H\' = P^T H P is NOT proved -- that case is covered by the metamorphic oracle only (partial).')
+    rep.assumptions.append('Proved at two levels: (edge level, regenerated programs) errors, boxplus and Jacobians under T -- pose slots J\' = J, '
+                           'landmark slots J\' = J R_T^-1 with R_T invertible; (graph level, lib/GNSpec.v) a per-vertex change of tangent basis maps every '
+                           'solution of the normal equations to the solution of the re-based system (basis_change_inv), and the two abstract trajectory '
+                           'theorems. NOT formalised: the instantiation gluing the two levels (that the transformed graph\'s GNSpec edges are tb_edge of the '
+                           'original with Q = blockdiag(I_pose, R_T^-1 for landmarks): list-matrices of lib/Chain.v vs function-matrices of lib/GraphModel.v), '
+                           'and uniqueness of the solution is a hypothesis (H nonsingular). SE(3) statements assume unit quaternions. The metamorphic '
+                           'oracle runs the whole thing on the implementation.')
     _edgecommon.run(rep, tier, seed, 'C07', ['C07'],
-                    'left-invariance of all 8 edge errors, boxplus equivariance, Jacobian invariance (uniqueness of the derivative), abstract trajectory theorem',
+                    'left-invariance of all 8 edge errors, boxplus equivariance, Jacobian relations for pose AND landmark slots, graph-level change of tangent basis, two trajectory theorems',
                     oracle_edges.frame_independence,
                     'metamorphic runs on the implementation: chi2 and 1..5 optimizer iterations of a transformed graph vs the transform of the original '
                     '(T with rotations near 180 degrees, translations up to 1e4, SE2/SE3/R2/R3, landmarks with offsets)',
